@@ -64,6 +64,9 @@ def interp(fn, args, heap, head, prog=None, depth=0, shared=None):
         raise Stuck('expression %s' % estr(e))
 
     def store(lhs, val):
+        if lhs.get('k') == 'ref' or 'k' not in lhs:
+            args[lhs['name']] = val          # a pointer kept in a local
+            return
         if lhs.get('k') == 'un' and lhs['op'] == '*' and ev_expr(lhs['e']) == 'LISTP':
             state['head'] = val
             return
